@@ -128,6 +128,8 @@ pub struct Exec {
     lookups: u64,
     adopt_weight: BTreeSet<u8>,
     sweeper_held: bool,
+    /// (old time, new time) while an operation runs with an armed clock jump: deadlines computed in it may use either
+    jump: Option<(Duration, Duration)>,
     /// keys whose delete was acknowledged Accepted and that were not put again since
     deleted_keys: BTreeSet<u8>,
     /// first expiry-index inconsistency seen (reported at the end of the case)
@@ -179,6 +181,7 @@ impl Exec {
             lookups: 0,
             adopt_weight: BTreeSet::new(),
             sweeper_held: false,
+            jump: None,
             deleted_keys: BTreeSet::new(),
             deferred: None,
             strict_index: false,
@@ -347,9 +350,13 @@ impl Exec {
         }
         self.release_sweeper();
         let used = self.cache.total_weight_used();
-        ensure!(used >= 0 && used <= self.cfg.max_weight, "C01", "C01/quiescent/out-of-bounds",
-            "total_weight_used() = {} outside [0, {}] after op #{}", used, self.cfg.max_weight, self.op_index);
-        let permille = ((used as i128 * 1000) / self.cfg.max_weight as i128) as u32;
+        if used < 0 || used > self.cfg.max_weight {
+            let failure = Failure::new("C01", "C01/quiescent/out-of-bounds", format!("total_weight_used() = {} outside [0, {}] after op #{}", used, self.cfg.max_weight, self.op_index));
+            // a campaign that deliberately over-commits the cache through the recorded finding F5 (weight-raising upserts)
+            // and is not about C01 carries on: the breach is the known one as long as the model explains it
+            if self.policy.allow_over_limit_upsert && used as i128 == self.model.used() && used > 0 { self.soft(failure)?; } else { return Err(failure); }
+        }
+        let permille = ((used as i128 * 1000) / self.cfg.max_weight as i128).clamp(0, 100_000) as u32;
         self.stats.max_used_permille = self.stats.max_used_permille.max(permille);
         if self.deep {
             let snapshot = self.cache.verif_snapshot();
@@ -426,6 +433,7 @@ impl Exec {
         let accounting_ok = accounting.is_ok();
         if let Err(failure) = accounting { self.soft(failure)?; }
         let adopt: Vec<u8> = self.adopt_weight.iter().copied().collect();
+        let jump = self.jump;
         let mut field_failure: Option<Failure> = None;
         for (k, entry) in self.model.held.iter_mut() {
             let (id, expiry, soft_deleted) = store[k];
@@ -445,6 +453,7 @@ impl Exec {
                     break;
                 }
             }
+            if expiry != entry.deadline && jump.is_some() && matches!((expiry, entry.deadline, jump), (Some(actual), Some(expected), Some((old, new))) if actual == expected + (new - old)) { entry.deadline = expiry; }
             if expiry != entry.deadline { field_failure = Some(Failure::new(blame, &tag("expiry-mismatch"), format!("key {} has expiry {:?} but should have {:?}", k, expiry, entry.deadline)).with_also(vec!["C09".to_string(), "C08".to_string()])); break; }
             if soft_deleted != entry.soft_deleted { field_failure = Some(Failure::new(blame, &tag("soft-delete-mismatch"), format!("key {} soft_deleted = {} but should be {}", k, soft_deleted, entry.soft_deleted))); break; }
         }
@@ -527,7 +536,21 @@ impl Exec {
 
     /// now == deadline: the property constrains neither answer (before: must be served, past: must not)
     fn at_deadline(&self, k: u8) -> bool {
-        self.model.held.get(&k).map(|entry| !entry.soft_deleted && entry.deadline == Some(self.model.now)).unwrap_or(false)
+        self.model.held.get(&k).map(|entry| !entry.soft_deleted && match (entry.deadline, self.jump) {
+            (Some(deadline), Some((old, new))) => deadline >= old && deadline <= new,
+            (Some(deadline), None) => deadline == self.model.now,
+            _ => false,
+        }).unwrap_or(false)
+    }
+
+    /// Whether `actual` is an acceptable deadline for one the model computed as `expected` (= model time + ttl): during an
+    /// operation with an armed clock jump the implementation may have read the clock before or after the jump.
+    fn deadline_matches(&self, actual: Option<Duration>, expected: Option<Duration>) -> bool {
+        if actual == expected { return true; }
+        match (actual, expected, self.jump) {
+            (Some(actual), Some(expected), Some((old, new))) => actual == expected + (new - old),
+            _ => false,
+        }
     }
 
     /// Compares a read result with the model. At the exact deadline instant either answer is accepted and adopted.
@@ -853,9 +876,13 @@ impl Exec {
                     match peek {
                         None => return Err(Failure::new("C08", "C08/in-place/entry-vanished", format!("after {} the key is not in the store", what))),
                         Some((_, expiry, _)) => {
-                            if expiry.map(since_epoch) != expected_deadline {
+                            if !self.deadline_matches(expiry.map(since_epoch), expected_deadline) {
                                 // the deadline a key ends up with is also what C09 is about
                                 return Err(Failure::new("C08", "C08/in-place/expiry", format!("after {} returned the expiry is {:?}, expected {:?}", what, expiry.map(since_epoch), expected_deadline)).with_also(vec!["C09".to_string()]));
+                            }
+                            if expiry.map(since_epoch) != expected_deadline {
+                                // the clock jumped inside the call and the later reading was used: adopt
+                                if let Some(model_entry) = self.model.held.get_mut(&k) { model_entry.deadline = expiry.map(since_epoch); }
                             }
                         }
                     }
